@@ -12,6 +12,16 @@ package discovery
 //   read           the consumer starts ONE receive on SyncCh() (it stays pending until a sender
 //                  tick hands a map over; while no read is pending the consumer is "slow")
 //   tick           the fake clock advances to the next firing of the sender's back-off timer
+//   race/<cfg>/<P>/<u>/<order>   (second search only) a reload to <cfg>, which keeps provider P,
+//                  CONCURRENT with update u of P: the harness holds Manager.targetsMtx (the lock
+//                  every step of ApplyConfig, updater and allGroups that touches the target pools
+//                  must take), starts the first contender (order R: ApplyConfig in its own
+//                  goroutine, order U: the update), waits until every goroutine of the bubble is
+//                  parked (durably or on a lock), starts the second contender, waits again, and
+//                  only then releases the lock. The update therefore arrives while ApplyConfig
+//                  is in the middle of its locked steps (R) or ApplyConfig arrives while the
+//                  updater is in the middle of applying the update (U); what happens next is
+//                  decided by the manager's own locking.
 // After every event the oracle closes the history ("updates stop, ticks delivered until
 // quiescent, consumer drained") and compares the LAST map read with the reference fold of the
 // statement.
@@ -20,6 +30,7 @@ import (
 	"context"
 	"fmt"
 	"os"
+	"runtime"
 	"sort"
 	"strings"
 	"sync"
@@ -50,10 +61,10 @@ type c47Job struct {
 
 var c47Configs = map[string][]c47Job{
 	"A": {{"j1", []string{"P1"}}},
-	"B": {{"j1", []string{"P1", "P2"}}},              // two providers, same source names, one job
+	"B": {{"j1", []string{"P1", "P2"}}},                   // two providers, same source names, one job
 	"C": {{"j1", []string{"P1"}}, {"j2", []string{"P1"}}}, // one provider shared by two jobs
 	"D": {{"j1", []string{"P2"}}, {"j2", []string{"P1"}}}, // P1 moves from j1 to j2
-	"E": {{"j1", nil}},                                // job without any SD config
+	"E": {{"j1", nil}},                                    // job without any SD config
 	"S": {{"j1", []string{"S1"}}},
 	"T": {{"j1", []string{"S2", "P2"}}, {"j2", nil}},
 	"0": {},
@@ -179,7 +190,7 @@ type c47Cfg struct {
 
 func (c47Cfg) Name() string { return "c47" }
 func (c c47Cfg) NewDiscoverer(DiscovererOptions) (Discoverer, error) {
-	return &c47Disc{w: c.W, id: c.ID, cmd: make(chan []*targetgroup.Group)}, nil
+	return &c47Disc{w: c.W, id: c.ID, cmd: make(chan []*targetgroup.Group), done: make(chan struct{})}, nil
 }
 
 func (c47Cfg) NewDiscovererMetrics(prometheus.Registerer, RefreshMetricsInstantiator) DiscovererMetrics {
@@ -187,9 +198,10 @@ func (c47Cfg) NewDiscovererMetrics(prometheus.Registerer, RefreshMetricsInstanti
 }
 
 type c47Disc struct {
-	w   *c47World
-	id  string
-	cmd chan []*targetgroup.Group
+	w    *c47World
+	id   string
+	cmd  chan []*targetgroup.Group
+	done chan struct{} // closed when Run returns
 }
 
 func (d *c47Disc) Run(ctx context.Context, up chan<- []*targetgroup.Group) {
@@ -197,6 +209,7 @@ func (d *c47Disc) Run(ctx context.Context, up chan<- []*targetgroup.Group) {
 	d.w.running[d.id] = append(d.w.running[d.id], d)
 	d.w.mu.Unlock()
 	defer func() {
+		close(d.done)
 		d.w.mu.Lock()
 		l := d.w.running[d.id]
 		for i := range l {
@@ -229,6 +242,7 @@ func (d *c47Disc) Run(ctx context.Context, up chan<- []*targetgroup.Group) {
 type c47World struct {
 	r       *vx.Run
 	updates []string
+	races   bool // offer the race/... events
 	ctx     context.Context
 	cancel  context.CancelFunc
 	m       *Manager
@@ -244,6 +258,7 @@ type c47World struct {
 	mdl *c47Model
 	// history features, for coverage accounting only
 	delayedSeen bool
+	raceParked  int // race events of this history in which BOTH contenders were parked on a lock when the gate opened
 }
 
 func c47NewWorld(r *vx.Run, updates []string) *c47World {
@@ -306,7 +321,34 @@ func (w *c47World) Ops() []string {
 			}
 		}
 	}
+	if w.races {
+		// reload CONCURRENT with an update of a provider that the reload keeps (an update of a
+		// provider that the reload removes has no specified effect).
+		for _, order := range []string{"R", "U"} {
+			for _, c := range c47ConfigOrder {
+				for _, p := range []string{"P1", "P2"} {
+					if run[p] != 1 || !c47Serves(c, p) {
+						continue
+					}
+					for _, u := range w.updates {
+						ops = append(ops, "race/"+c+"/"+p+"/"+u+"/"+order)
+					}
+				}
+			}
+		}
+	}
 	return ops
+}
+
+func c47Serves(cfg, p string) bool {
+	for _, j := range c47Configs[cfg] {
+		for _, q := range j.provs {
+			if q == p {
+				return true
+			}
+		}
+	}
+	return false
 }
 
 func (w *c47World) counter(c prometheus.Counter) float64 {
@@ -362,32 +404,176 @@ func (w *c47World) Apply(op string) {
 	case "read":
 		w.arm()
 	case "up":
-		p := f[1]
-		w.mu.Lock()
-		l := w.running[p]
-		w.mu.Unlock()
-		if len(l) == 0 {
-			panic("c47: update for a provider that is not running: " + op)
-		}
-		var tgs []*targetgroup.Group
-		for _, g := range c47Updates[f[2]] {
-			switch g[1] {
-			case "n":
-				tgs = append(tgs, nil)
-			case "0":
-				tgs = append(tgs, &targetgroup.Group{Source: g[0]})
-				w.mdl.update(p, g[0], "")
-			case "+":
-				w.seq[p]++
-				addr := fmt.Sprintf("%s-%s-%d", p, g[0], w.seq[p])
-				tgs = append(tgs, &targetgroup.Group{Source: g[0], Targets: []model.LabelSet{{model.AddressLabel: model.LabelValue(addr)}}})
-				w.mdl.update(p, g[0], addr)
-			}
-		}
-		l[len(l)-1].cmd <- tgs
+		w.sendUpdate(f[1], f[2])
+	case "race":
+		w.race(f[1], f[2], f[3], f[4])
 	default:
 		panic("c47: unknown op " + op)
 	}
+}
+
+// sendUpdate makes the running discoverer of provider p send update u (and folds it into the
+// reference). It returns when the discoverer has taken the update; the discoverer then hands it
+// to the manager's updater goroutine.
+func (w *c47World) sendUpdate(p, u string) {
+	w.mu.Lock()
+	l := w.running[p]
+	w.mu.Unlock()
+	if len(l) == 0 {
+		panic("c47: update for a provider that is not running: " + p + "/" + u)
+	}
+	var tgs []*targetgroup.Group
+	for _, g := range c47Updates[u] {
+		switch g[1] {
+		case "n":
+			tgs = append(tgs, nil)
+		case "0":
+			tgs = append(tgs, &targetgroup.Group{Source: g[0]})
+			w.mdl.update(p, g[0], "")
+		case "+":
+			w.seq[p]++
+			addr := fmt.Sprintf("%s-%s-%d", p, g[0], w.seq[p])
+			tgs = append(tgs, &targetgroup.Group{Source: g[0], Targets: []model.LabelSet{{model.AddressLabel: model.LabelValue(addr)}}})
+			w.mdl.update(p, g[0], addr)
+		}
+	}
+	d := l[len(l)-1]
+	select {
+	case d.cmd <- tgs:
+	case <-d.done:
+		panic("c47: discoverer of " + p + " stopped although its provider is kept")
+	}
+}
+
+// race runs a reload to cfg concurrently with update u of provider p (kept by cfg). The harness
+// holds targetsMtx as a gate: neither ApplyConfig nor the updater can touch the target pools
+// until both are parked, in the chosen order of arrival. Since the reload keeps p, the reference
+// fold does not depend on the order (reload and update commute in the statement).
+func (w *c47World) race(cfg, p, u, order string) {
+	real := w.realConfig(cfg)
+	errc := make(chan error, 1)
+	reload := func() {
+		go func() {
+			var err error
+			if pv, st := vx.Guard(func() { err = w.m.ApplyConfig(real) }); pv != nil {
+				err = fmt.Errorf("panic in ApplyConfig: %v\n%s", pv, st)
+			}
+			errc <- err
+		}()
+	}
+	w.m.targetsMtx.Lock()
+	var parked c47Parked
+	if order == "R" {
+		reload()
+		c47Settle()
+		w.sendUpdate(p, u)
+		parked = c47Settle()
+	} else {
+		w.sendUpdate(p, u)
+		c47Settle()
+		reload()
+		parked = c47Settle()
+	}
+	w.m.targetsMtx.Unlock()
+	synctest.Wait()
+	select {
+	case err := <-errc:
+		if err != nil {
+			panic(fmt.Sprintf("c47: ApplyConfig (concurrent with an update): %v", err))
+		}
+	default:
+		panic("c47: ApplyConfig did not return after the gate was opened and the bubble became quiescent")
+	}
+	w.mdl.reload(c47Configs[cfg])
+	if parked.reloadOnLock && parked.updaterOnLock {
+		w.raceParked++
+	}
+}
+
+// c47Parked says where the two contenders of a race were when every goroutine was blocked.
+type c47Parked struct {
+	reloadOnLock  bool // a goroutine inside Manager.ApplyConfig waits for a sync.Mutex/RWMutex
+	updaterOnLock bool // a goroutine inside Manager.updater waits for a sync.Mutex/RWMutex
+}
+
+// c47Settle returns when every OTHER goroutine of the caller's synctest bubble is blocked:
+// durably (channel, select, timer, WaitGroup ...: what synctest.Wait waits for) or on a
+// sync.Mutex / sync.RWMutex (which synctest.Wait never regards as blocked, so it cannot be used
+// while the harness holds a lock of the manager). The goroutine states are read from the
+// runtime's own all-goroutine dump, which is taken with the world stopped, so one dump in which
+// nobody else is runnable is a fixpoint: the fake clock does not advance while the caller runs
+// and nothing outside the bubble can wake a goroutine inside it.
+var c47StackBufs = sync.Pool{New: func() any { b := make([]byte, 256<<10); return &b }}
+
+func c47Settle() c47Parked {
+	self := make([]byte, 256)
+	self = self[:runtime.Stack(self, false)]
+	selfHdr, _, _ := strings.Cut(string(self), "\n")
+	selfID, _, bubble, ok := c47ParseGoHeader(selfHdr)
+	if !ok || bubble == "" {
+		panic("c47: cannot find the caller's synctest bubble in " + selfHdr)
+	}
+	bp := c47StackBufs.Get().(*[]byte)
+	defer c47StackBufs.Put(bp)
+	buf := *bp
+	for try := 0; try < 100000; try++ {
+		runtime.Gosched()
+		n := runtime.Stack(buf, true)
+		for n == len(buf) {
+			buf = make([]byte, 2*len(buf))
+			*bp = buf
+			n = runtime.Stack(buf, true)
+		}
+		settled := true
+		var pk c47Parked
+		for _, blk := range strings.Split(string(buf[:n]), "\n\n") {
+			hdr, body, _ := strings.Cut(blk, "\n")
+			id, state, b, ok := c47ParseGoHeader(hdr)
+			if !ok || b != bubble || id == selfID {
+				continue
+			}
+			switch {
+			case strings.HasSuffix(state, "(durable)"):
+			case state == "sync.WaitGroup.Wait" || state == "sync.Cond.Wait":
+			case state == "sync.Mutex.Lock" || state == "sync.RWMutex.RLock" || state == "sync.RWMutex.Lock":
+				if strings.Contains(body, "discovery.(*Manager).ApplyConfig(") {
+					pk.reloadOnLock = true
+				}
+				if strings.Contains(body, "discovery.(*Manager).updater(") {
+					pk.updaterOnLock = true
+				}
+			default: // running, runnable, ...
+				settled = false
+			}
+			if !settled {
+				break
+			}
+		}
+		if settled {
+			return pk
+		}
+	}
+	panic("c47: the bubble does not settle while the harness holds targetsMtx:\n" + string(buf))
+}
+
+// c47ParseGoHeader parses "goroutine 12 [sync.Mutex.Lock, 2 minutes, synctest bubble 3]:".
+func c47ParseGoHeader(h string) (id, state, bubble string, ok bool) {
+	rest, found := strings.CutPrefix(h, "goroutine ")
+	if !found || !strings.HasSuffix(rest, "]:") {
+		return "", "", "", false
+	}
+	id, rest, found = strings.Cut(rest, " [")
+	if !found {
+		return "", "", "", false
+	}
+	parts := strings.Split(strings.TrimSuffix(rest, "]:"), ", ")
+	state = parts[0]
+	for _, p := range parts[1:] {
+		if b, isB := strings.CutPrefix(p, "synctest bubble "); isB {
+			bubble = b
+		}
+	}
+	return id, state, bubble, true
 }
 
 func c47CanonGroup(tg *targetgroup.Group) string {
@@ -570,6 +756,12 @@ func (w *c47World) Check() *vx.Fail {
 			w.r.Distinct("distinct_nontrivial", "delayed|"+last)
 			w.r.Count("histories_with_delayed_send", 1)
 		}
+		if w.raceParked > 0 {
+			if w.r.Distinct("distinct_nontrivial", "race|"+last) {
+				w.r.Count("distinct_final_maps_after_parked_race", 1)
+			}
+			w.r.Count("histories_with_parked_race", 1)
+		}
 	}
 	if ws := c47CanonMap(want); last != ws {
 		sig := "last-delivered-differs-from-fold"
@@ -605,6 +797,18 @@ func c47SelfTest(t *testing.T, r *vx.Run, eng *evloop.Engine) {
 	if f := eng.Replay(bad, ops); f == nil || f.Signature != "last-delivered-differs-from-fold" {
 		t.Fatalf("self-test: oracle accepted a wrong final map (%v)", f)
 	}
+	// 2b. the same for a reload (to the configuration already in force) concurrent with the
+	// emptying update, both orders of arrival.
+	for _, order := range []string{"R", "U"} {
+		rops := []string{"reload/C", "up/P1/a+", "race/C/P1/a0/" + order}
+		if f := eng.Replay(func() evloop.World { return c47NewWorld(nil, c47UpdatesThorough) }, rops); f != nil {
+			r.Violation(f.Signature, f.Message, map[string]any{"config": "c47-thorough-race", "ops": rops})
+			return
+		}
+		if f := eng.Replay(bad, rops); f == nil || f.Signature != "last-delivered-differs-from-fold" {
+			t.Fatalf("self-test: oracle accepted a wrong final map after a concurrent reload (%v)", f)
+		}
+	}
 	// 3. the model folds as the statement says.
 	m := c47NewModel()
 	m.reload(c47Configs["C"])
@@ -637,7 +841,7 @@ func TestVerifC47(t *testing.T) {
 			Ops    []string `json:"ops"`
 		}
 		r.LoadReplay(&rp)
-		if rp.Config == "c47-thorough" {
+		if strings.HasPrefix(rp.Config, "c47-thorough") {
 			updates = c47UpdatesThorough
 		}
 		if f := eng.Replay(mk, rp.Ops); f != nil {
@@ -647,26 +851,51 @@ func TestVerifC47(t *testing.T) {
 	}
 	c47SelfTest(t, r, &evloop.Engine{T: t})
 	depth := vx.Pick(r, 6, 9)
+	raceDepth := vx.Pick(r, 4, 6)
 	if v := os.Getenv("VERIF_C47_DEPTH"); v != "" { // experiments only
 		fmt.Sscan(v, &depth)
 	}
+	if v := os.Getenv("VERIF_C47_RACE_DEPTH"); v != "" { // experiments only
+		fmt.Sscan(v, &raceDepth)
+	}
+	// Search 1: all orderings of sequential events (every event injected at a quiescent point).
 	name := vx.Pick(r, "c47-quick", "c47-thorough")
 	res := r.BFS(name, func() vx.Sys { return eng.Sys(mk) }, depth)
 	t.Logf("C47 %s depth %d: states=%d transitions=%d depthCompleted=%d guarded=%d", name, depth, res.States, res.Transitions, res.DepthCompleted, eng.Guarded())
-	if d := eng.Diverged(); len(d) > 0 {
-		t.Fatalf("determinism guard: %d of %d twice-executed histories diverged, e.g. %s", len(d), eng.Guarded(), d[0])
+	// Search 2: the same events plus reloads CONCURRENT with an update of a kept provider, in
+	// both orders of arrival at the manager's target-pool lock.
+	// c47Settle reads goroutine states from an all-goroutine dump, which stops the world; with
+	// many Ps on a loaded machine that costs milliseconds, with one P microseconds.
+	defer runtime.GOMAXPROCS(runtime.GOMAXPROCS(1))
+	engRace := &evloop.Engine{T: t, GuardFirst: 50}
+	mkRace := func() evloop.World {
+		w := c47NewWorld(r, updates)
+		w.races = true
+		return w
 	}
-	if eng.Guarded() < 50 && eng.Checked() >= 50 {
-		t.Fatalf("determinism guard ran on %d histories only", eng.Guarded())
+	res2 := r.BFS(name+"-race", func() vx.Sys { return engRace.Sys(mkRace) }, raceDepth)
+	t.Logf("C47 %s-race depth %d: states=%d transitions=%d depthCompleted=%d guarded=%d", name, raceDepth, res2.States, res2.Transitions, res2.DepthCompleted, engRace.Guarded())
+	for _, e := range []*evloop.Engine{eng, engRace} {
+		if d := e.Diverged(); len(d) > 0 {
+			t.Fatalf("determinism guard: %d of %d twice-executed histories diverged, e.g. %s", len(d), e.Guarded(), d[0])
+		}
+		if e.Guarded() < 50 && e.Checked() >= 50 {
+			t.Fatalf("determinism guard ran on %d histories only", e.Guarded())
+		}
 	}
-	r.Count("histories_executed_twice", int(eng.Guarded()))
-	r.Count("evaluations", int(eng.Checked()))
+	r.Count("histories_executed_twice", int(eng.Guarded()+engRace.Guarded()))
+	r.Count("evaluations", int(eng.Checked()+engRace.Checked()))
 	r.Set("depth", depth)
-	r.Set("alphabet", map[string]any{"configs": c47ConfigOrder, "updates_per_provider": updates, "providers": []string{"P1", "P2", "S1", "S2", "static-empty"}, "other": []string{"read", "tick"}})
-	r.Set("rule", fmt.Sprintf("every ordering of <= %d events (reload to one of %d configurations, update u of provider P1/P2 when running, consumer read, sender tick) on a fresh real Manager in a synctest bubble, de-duplicated on (providers, subscriptions, stored groups, pending trigger, pending read, last delivered map, model); after every transition the history is closed (ticks + reads until nothing more is delivered) and the last delivered map compared with the reference fold; distinct_outcomes = distinct final maps, distinct_nontrivial = distinct final maps of histories in which the sender found the consumer not reading (delayed-update path)", depth, len(c47ConfigOrder)))
-	r.Assume("between two quiescent points the order of runnable goroutines, select tie-breaks and map iteration are the Go runtime's; each event is injected only when every goroutine of the manager is durably blocked (so e.g. a discoverer blocked in its send while ApplyConfig runs is not explored)")
+	r.Set("depth_with_concurrent_reload_events", raceDepth)
+	r.Set("alphabet", map[string]any{"configs": c47ConfigOrder, "updates_per_provider": updates, "providers": []string{"P1", "P2", "S1", "S2", "static-empty"}, "other": []string{"read", "tick"},
+		"concurrent": "race/<cfg>/<P>/<u>/<R|U>: reload to cfg (which keeps the running provider P) concurrent with update u of P; R = ApplyConfig parked on targetsMtx first, then the update arrives; U = the updater parked on targetsMtx first (holding the provider's read lock), then ApplyConfig arrives"})
+	r.Set("rule", fmt.Sprintf("search 1: every ordering of <= %d events (reload to one of %d configurations, update u of provider P1/P2 when running, consumer read, sender tick) on a fresh real Manager in a synctest bubble, de-duplicated on (providers, subscriptions, stored groups, pending trigger, pending read, last delivered map, model); search 2: the same with <= %d events where an event may also be a reload concurrent with an update of a provider it keeps (both orders of arrival at targetsMtx, which the harness holds until every goroutine is parked); after every transition the history is closed (ticks + reads until nothing more is delivered) and the last delivered map compared with the reference fold; distinct_outcomes = distinct final maps, distinct_nontrivial = distinct final maps of histories in which the sender found the consumer not reading (delayed-update path) or in which a concurrent reload+update had BOTH ApplyConfig and the updater parked on a lock when the gate opened", depth, len(c47ConfigOrder), raceDepth))
+	r.Assume("between two quiescent points the order of runnable goroutines, select tie-breaks and map iteration are the Go runtime's; sequential events are injected only when every goroutine of the manager is durably blocked. Concurrency of a reload with an update is explored only through the race events: one gate (targetsMtx), two orders of arrival; after the gate opens the lock hand-over is sync.Mutex's (first parked, first served) and Go's RWMutex writer preference")
 	r.Assume("sender ticks that find no pending trigger are no-ops; the tick event advances the fake clock in 10ms steps until SentUpdates moves or the longest back-off interval has elapsed")
 	if r.Violations() == 0 && (r.Get("histories_with_delayed_send") == 0 || r.Get("outcome_kinds") < 2) {
 		t.Fatalf("vacuous run: delayed-update (slow consumer) path taken %d times, %d distinct final maps", r.Get("histories_with_delayed_send"), r.Get("outcome_kinds"))
+	}
+	if r.Violations() == 0 && res2.DepthCompleted >= 2 && r.Get("histories_with_parked_race") == 0 {
+		t.Fatalf("vacuous run: no concurrent reload+update had both ApplyConfig and the updater parked on a lock")
 	}
 }
